@@ -3,7 +3,6 @@ package props
 import (
 	crand "crypto/rand"
 	"fmt"
-	"io"
 	"math/rand/v2"
 	"runtime"
 	"strings"
@@ -70,28 +69,6 @@ func prevPrime(x *big.Int) *big.Int {
 		p.Sub(p, bi(2))
 	}
 	return p
-}
-
-// faultReader passes the system randomness through, except that the target-th read (counted from 1) is answered with a
-// constant byte pattern: the extreme draws (all ones / all zeros) that a signing run meets with negligible probability.
-type faultReader struct {
-	inner   io.Reader
-	n       int
-	target  int
-	pattern byte
-	hit     bool
-}
-
-func (f *faultReader) Read(p []byte) (int, error) {
-	f.n++
-	if f.n == f.target {
-		for i := range p {
-			p[i] = f.pattern
-		}
-		f.hit = true
-		return len(p), nil
-	}
-	return f.inner.Read(p)
 }
 
 // c05ExtremeRandomness signs with single extreme random draws (single-threaded: crypto/rand.Reader is process-wide). Whatever
